@@ -14,6 +14,7 @@ import (
 	"mcverif/engine"
 	"mcverif/rw"
 	"mcverif/sched"
+	"mcverif/vpoint"
 )
 
 // schedules: every unordered pair of read-only operations runs as two threads on one shared
@@ -29,7 +30,7 @@ func schedules(c *engine.Ctx) {
 	rw.SilenceStdout()
 	_ = sched.NewRaceReports()
 	docs := Docs()
-	for _, dn := range []string{"full-multiroot", "full-tree", "sparse", "spare-capacity"} {
+	for _, dn := range []string{"novel-values", "full-multiroot", "full-tree", "sparse", "spare-capacity"} {
 		dn := dn
 		ops := Ops(docs[dn]())
 		sel := selectOps(ops, c.Thorough())
@@ -74,6 +75,100 @@ func schedules(c *engine.Ctx) {
 			}
 		}
 	}
+}
+
+// fineGrained: pairs of serializations of one shared document with the code-point seam switched on: every function
+// entry and loop iteration of the library is a scheduling point, every schedule with one preemption is run. A thread
+// can then be stopped right after it wrote something, before anything it does later (a pooled buffer handed back, a
+// lock released) orders that write before the other thread's accesses - which is what makes ThreadSanitizer see
+// unsynchronised state that whole-call interleavings only ever show in an accidentally ordered form.
+func fineGrained(c *engine.Ctx) {
+	c.Group("schedules-inside-calls")
+	if vpoint.Sites == 0 {
+		c.Note("code-point seam unavailable on this tree: interleavings inside calls are not explored (seam_points:false)")
+		c.Selftest("seam_points", "false")
+		c.Cap("code-point-seam-unavailable")
+		return
+	}
+	c.Selftest("seam_points", fmt.Sprintf("true (sites=%d)", vpoint.Sites))
+	docs := Docs()
+	var count int
+	for _, dn := range []string{"novel-values", "full-multiroot"} {
+		dn := dn
+		ops := Ops(docs[dn]())
+		var ser []int
+		for i, o := range ops {
+			if strings.HasPrefix(o.Name, "serialize:") {
+				ser = append(ser, i)
+			}
+		}
+		for ai := 0; ai < len(ser); ai++ {
+			for bi := ai; bi < len(ser); bi++ {
+				a, b := ser[ai], ser[bi]
+				count++
+				c.Case(func() any {
+					return map[string]string{"operand": dn, "T0": ops[a].Name, "T1": ops[b].Name, "points": "every function entry and loop iteration"}
+				}, func(t *engine.T) *engine.Violation {
+					var viol *engine.Violation
+					var d, aux *sbom.Document
+					vpoint.On = true
+					defer func() { vpoint.On = false }()
+					n := sched.Explore(1, func() []func() {
+						vpoint.On = false
+						d, aux = docs[dn](), docs["sparse"]()
+						vpoint.On = true
+						return []func(){func() { ops[a].Run(d, aux) }, func() { ops[b].Run(d, aux) }}
+					}, func(x *sched.Exec) bool {
+						t.Alive()
+						t.Transitions(len(x.Points))
+						if x.Deadlock || x.Diverged != "" {
+							viol = engine.Violate("harness", "", "scheduler: deadlock=%v %s", x.Deadlock, x.Diverged)
+							return false
+						}
+						if rs := sched.NewRaceReports(); len(rs) > 0 {
+							viol = engine.Violate("data-race", opFamily(ops[a].Name)+"||"+opFamily(ops[b].Name), "%s || %s on shared document %s, preempted inside the call (choices %v)\n%s", ops[a].Name, ops[b].Name, dn, x.Choices, rs[0].Text)
+							k := confirmRacePoints(dn, a, b, x.Choices)
+							viol.Detail = fmt.Sprintf("re-detected in %d of 8 fresh-process replays of this schedule\n%s", k, viol.Detail)
+							viol.PreConfirmed = 1
+							if k >= 1 {
+								viol.PreConfirmed = 5
+							}
+							return false
+						}
+						return true
+					})
+					if viol != nil {
+						return viol
+					}
+					t.Validated(n)
+					t.State(fmt.Sprintf("fine|%s|%d|%d", dn, a, b))
+					t.Outcome(fmt.Sprintf("race-free inside calls"))
+					return nil
+				})
+			}
+		}
+	}
+	c.Bound("schedules-inside-calls", fmt.Sprintf("%d pairs of serializations (8 formats, incl. twice the same) on a shared document (values new to the process; fully populated) with every function entry and loop iteration of the library as a scheduling point, every schedule with <=1 preemption", count))
+}
+
+func confirmRacePoints(dn string, a, b int, choices []int) int {
+	self, _ := os.Executable()
+	n := 0
+	for i := 0; i < 8; i++ {
+		base := filepath.Join(os.Getenv("MCVERIF_SCRATCH"), fmt.Sprintf("tsanc11p-%d-%d", os.Getpid(), i))
+		cmd := exec.Command(self, "--aux", "c11race", dn, fmt.Sprint(a), fmt.Sprint(b), fmt.Sprint(choices), "points")
+		cmd.Env = append(os.Environ(), "GORACE=halt_on_error=0 log_path="+base, "MCVERIF_TSAN_LOG="+base)
+		out, _ := cmd.CombinedOutput()
+		if strings.Contains(string(out), "RACE:") {
+			n++
+		}
+		if m, _ := filepath.Glob(base + ".*"); m != nil {
+			for _, f := range m {
+				os.Remove(f)
+			}
+		}
+	}
+	return n
 }
 
 // selectOps: quick = the first instance of every operation family plus every serializer; thorough = all instances.
@@ -143,7 +238,11 @@ func Aux(args []string) int {
 	ops := Ops(docs[dn]())
 	_ = sched.NewRaceReports()
 	d, aux := docs[dn](), docs["sparse"]()
+	if len(args) > 4 && args[4] == "points" {
+		vpoint.On = true
+	}
 	sched.Run([]func(){func() { ops[a].Run(d, aux) }, func() { ops[b].Run(d, aux) }}, choices)
+	vpoint.On = false
 	rs := sched.NewRaceReports()
 	if len(rs) == 0 {
 		fmt.Fprintln(os.Stderr, "NORACE")
